@@ -7,6 +7,9 @@ import SaModel.Props.C01
 import SaModel.Props.C02
 import SaModel.Props.C03Read
 import SaModel.Lemmas.C06Readable
+import SaModel.Lemmas.C06Typed
+import SaModel.Lemmas.C06SafeT
+import SaModel.Lemmas.C06Phys
 /-
 C06 — a schema traced from samples accepts those same samples: the chain closed end to end.
 
@@ -14,21 +17,26 @@ C06 — a schema traced from samples accepts those same samples: the chain close
                         mapped by `Spec.interp` at the field of EVERY tracer reachable from there, unless it is excluded
   fromSamples_interp    the same for a traced collection: every sample of the collection, at the traced root field
   fromSamples_interpRow … in the form the builder theorems use (`Spec.interpRow` against the traced schema)
-  C06_closure_build_partial  trace ⇒ build: `runRows` (every `push` of `to_marrow`) accepts the whole collection
-                        (`Props.C01.runRows_complete`), what remains of `to_marrow` is `build_arrays`
+  to_schema_typed       every traced schema is well typed (`typedFs`), `total` and keyed by UInt32
+  C06_closure_build     trace ⇒ build: `to_marrow` with the traced schema SUCCEEDS on the whole collection
+                        (`Props.C01.toMarrow_complete`, all schema hypotheses discharged but `safeSchema`)
   C06_closure_decode    whenever `to_marrow` returns arrays, they decode (Arrow reading rules) column by column to
                         `interpRow` of the samples (`Props.C01.C01_build_decode`)
   C06_closure_readback  … and `deserialize_any` on the arrays returns those logical values — NO reader-side hypothesis
                         (`Props.C03.toMarrow_readAny`: the built arrays satisfy the reader preconditions of C02); for tracing
                         options without dictionary-encoded strings.  `C06_closure_readback_partial`: all options, with the size
-                        precondition `Read.physical` of the dictionary columns still a hypothesis
+                        precondition `Read.physical` of the dictionary columns as a hypothesis (derived by
+                        `C06_closure_physical` under the capacity bound)
+  C06_closure           the composition, options without dictionary encoding: hypotheses on the input only
+  C06_closure_dict      the composition for every option: + `safeSchema` (C01's `Safe`, decidable on the traced schema)
 
 Exclusions, each an explicit decidable predicate on (data type of the traced field, sample) — `Lemmas/C06Excl.lean`:
 the three DOCUMENTED ones `nullAtEnum`, `dateLookalike`, `u64AboveI64`; the known finding `dataLessNewtype`; lifted to
 nested samples by `hits` (some position the mapping visits).  (The finding of this proof, `unitStructAtValue`, is repaired —
 repo fix ae2fc46, `unitStruct_accepted` / `unitStruct_pinned` — and no longer an exclusion.)  On the builder
-side: `total` (C01's schema-level condition; its traced instance, finding `C06-unseen-first-variant-default`, is repaired —
-repo fix 837fa53, `Props.C01.default_first_real`), C01's `Safe` (dictionaries below nullable structs), capacity.  `excl_*_needed`: each exclusion is needed (a traced collection whose
+side: C01's `Safe` as the decidable schema predicate `safeSchema` (a theorem without dictionary-encoding options; can fail with
+them, `safeSchema_can_fail`) and the capacity bound `Σ vsize ≤ 2^31 - 1`.  `total` and `typedFs` are theorems (`to_schema_typed`;
+the traced instance of `total`, finding `C06-unseen-first-variant-default`, is repaired — repo fix 837fa53).  `excl_*_needed`: each exclusion is needed (a traced collection whose
 sample the mapping refuses exactly there).
 Repaired code (`Code.fixed`), options without overwrites (an overwrite replaces a traced field by an arbitrary one).
 -/
@@ -127,38 +135,82 @@ theorem fromSamples_interpRow (o : Options) (ext : Ext) (h0 : o.overwrites = [])
 
 /-! ### trace ⇒ build -/
 
-/-- **`C06_closure_build_partial`** (trace ⇒ build).  Whenever tracing a schema from the collection `xs` succeeds, every `push` of
-`to_marrow ext fields xs` succeeds (`runRows`), and `to_marrow` is what `build_arrays` makes of the final builder state.
-Hypotheses, all explicit:
+/-- the tracer behind a traced schema has a seen variant in each union node (`Lemmas/C06Seen.lean`) -/
+theorem fromSamples_us {o : Options} {xs : List SVal} {t : Tracer} (h : fromSamplesTracer .fixed o xs = .ok t) : US t :=
+  fromSamplesTracer_us o xs (fromSamplesTracer_absorbAll h)
+
+/-- **`to_schema_typed`** (with `total` and the key types): every schema `from_samples` traces (repaired code, no
+overwrites) is
+  * well typed — `typedFs`: sizes are `i32`, union type ids `i8` values (the tracer never emits FixedSizeBinary /
+    FixedSizeList; `UnionTracer::to_field` refuses a 129th variant, so an emitted Union has the type ids 0 … ≤ 127);
+  * `total` — `totalFs`, in its form after repo fix 837fa53: a nullable struct's children take `serialize_default`.  Derived
+    from the tracer's shape: a traced `Null` field is never an `UnknownVariant` placeholder outside a union, a Union traced
+    from samples has a seen variant (`US`), and a seen variant's field takes `serialize_default` (induction).  So `total`
+    CANNOT fail for a traced schema any more: no instance of the repaired finding `C06-unseen-first-variant-default` remains;
+  * keyed by UInt32 wherever it has a dictionary (`wideFs`). -/
+theorem to_schema_typed (o : Options) (h0 : o.overwrites = []) {xs : List SVal} {fields : List Field}
+    (h : fromSamples .fixed o xs = .ok fields) :
+    Lemmas.C03.typedFs (Fields.ofList fields) = true ∧ totalFs (Fields.ofList fields) = true ∧
+      wideFs (Fields.ofList fields) = true := by
+  obtain ⟨t, n, children, md, ht, hs, _, _⟩ := fromSamples_root h
+  exact to_schema_good o h0 t (fromSamples_inv ht).1 (fromSamples_us ht) fields hs
+
+/-- C01's `Safe` as a DECIDABLE predicate on the schema (`Lemmas/C06SafeS.lean`): no dictionary with non-nullable keys
+where a nullable struct's `serialize_default` can reach it (through struct children and the first real variant of a
+union) -/
+def safeSchema (fields : List Field) : Bool := safeFs (Fields.ofList fields)
+
+/-- for a traced schema, C01's `Safe` of the fresh root builder IS `safeSchema` (exact) -/
+theorem fromSamples_safe_iff (o : Options) (h0 : o.overwrites = []) {xs : List SVal} {fields : List Field}
+    (h : fromSamples .fixed o xs = .ok fields) {root0 : B} (hnew : newRoot fields = .ok root0) :
+    Safe root0 ↔ safeSchema fields = true := by
+  obtain ⟨t, n, children, md, ht, hs, _, _⟩ := fromSamples_root h
+  exact newRoot_safe_iff (to_schema_side_of_WF o h0 t (fromSamples_inv ht).wf fields hs).2 hnew
+
+/-- **`Safe` for traced schemas**: when no option asks for dictionary-encoded strings, every traced schema — unions
+included — is `safeSchema` (there is no Dictionary field at all) -/
+theorem fromSamples_safeSchema (o : Options) (h0 : o.overwrites = []) (hd : o.string_dictionary_encoding = false)
+    (he : o.enums_without_data_as_strings = false) {xs : List SVal} {fields : List Field}
+    (h : fromSamples .fixed o xs = .ok fields) : safeSchema fields = true := by
+  obtain ⟨t, n, children, md, ht, hs, _, _⟩ := fromSamples_root h
+  exact to_schema_safeFs o h0 hd he t (fromSamples_inv ht).wf fields hs
+
+/-- **the capacity bound in closed form**: the head room of the fresh builder of a traced schema is `i32::MAX`
+(nothing is used, and the dictionaries the tracer emits have UInt32 keys: 2^32 free keys) -/
+theorem fromSamples_room (o : Options) (h0 : o.overwrites = []) {xs : List SVal} {fields : List Field}
+    (h : fromSamples .fixed o xs = .ok fields) {root0 : B} (hnew : newRoot fields = .ok root0) :
+    room root0 = 2147483647 :=
+  fresh_room root0 _ false (newRoot_fresh hnew).2.2 (Props.C03.newRoot_builtFor fields root0 hnew)
+    (by simpa [wideDT] using (to_schema_typed o h0 h).2.2)
+
+/-- **`C06_closure_build`** (trace ⇒ build).  Whenever tracing a schema from the collection `xs` succeeds,
+`to_marrow ext fields xs` with the traced schema SUCCEEDS — every `push` is accepted and `build_arrays` cannot fail.
+Hypotheses, all explicit and decidable:
   `hok`    the samples are serde values a Rust program can produce (`sampleOK`);
   `hex`    none of the exclusions: the three documented ones and `dataLessNewtype` (known finding);
-  `htot`   C01's `total`: a nullable struct's children support `serialize_default` (a union through its first variant that
-           is not an `UnknownVariant` placeholder: since repo fix 837fa53 the traced shape of the former finding
-           `C06-unseen-first-variant-default` is INSIDE `total`, `Props.C01.default_first_real`) and unions have at most
-           128 variants; not yet derived for traced schemas in general;
-  `hsafe`  C01's `Safe` (no dictionary with non-nullable keys below a nullable struct: C01's known exclusion
-           `dict_placeholder_unstable`; holds for every traced schema without dictionaries, `Lemmas.C06.to_schema_safe`);
-  (that `build_builder` accepts the traced schema is PROVED: `Lemmas.C06.newRoot_traced`)
-  `hcap`   capacity: the sizes of the samples fit the head room of the fresh builder (`room root0 = min (2^31-1 - used)
-           (free dictionary keys)`, `Props.C01.small_NoCap`).
-The statement stops at `build_arrays`: `finish` is total on well-formed states of well-typed schemas
-(`Props.C01.toMarrow_complete`), but its typing hypothesis `typedFs` (sizes `i32`, union type ids `i8`) is derived for
-schemas traced by `from_type` only (`Props.C03.fromType_good`), not yet for `from_samples`. -/
-theorem C06_closure_build_partial (o : Options) (ext : Ext) (h0 : o.overwrites = []) (xs : List SVal) (fields : List Field)
+  `hsafe`  `safeSchema fields`: C01's `Safe` (`fromSamples_safe_iff`: exactly `Safe` of the fresh builder) — no dictionary
+           with non-nullable keys below a nullable struct.  It holds by theorem when no option dictionary-encodes strings
+           (`fromSamples_safeSchema`); with `string_dictionary_encoding` / `enums_without_data_as_strings` it CAN fail
+           (`safeSchema_can_fail`: a non-nullable string inside an `Option<struct>`) — C01's `dict_placeholder_unstable`
+           situation, a limit of the proof (R1 is stated per builder), not a defect: `to_marrow` accepts that
+           collection too (`safeSchema_can_fail`, evaluated);
+  `hcap`   capacity in closed form: the sizes of the samples sum to at most `i32::MAX = 2^31 - 1` (`fromSamples_room`).
+No longer hypotheses: `total` and the typing invariant `typedFs` (`to_schema_typed`), that `build_builder` accepts the
+schema (`newRoot_traced`), the C01 side conditions (`to_schema_side_of_WF`). -/
+theorem C06_closure_build (o : Options) (ext : Ext) (h0 : o.overwrites = []) (xs : List SVal) (fields : List Field)
     (h : fromSamples .fixed o xs = .ok fields)
     (hok : ∀ x ∈ xs, SampleOK o x) (hex : ∀ x ∈ xs, excludedRow ext fields x = false)
-    (htot : totalFs (Fields.ofList fields) = true)
-    (hsafe : ∀ root0, newRoot fields = .ok root0 → Safe root0)
-    (hcap : ∀ root0, newRoot fields = .ok root0 → (xs.map (vsize ext)).sum ≤ room root0) :
-    ∃ root, runRows ext fields xs = .ok root ∧
-      toMarrow ext fields xs = (do let (arrs, _) ← buildArrays ext root; pure arrs) := by
+    (hsafe : safeSchema fields = true)
+    (hcap : (xs.map (vsize ext)).sum ≤ 2147483647) :
+    ∃ arrs, toMarrow ext fields xs = .ok arrs := by
   obtain ⟨t, n, children, md, ht, hs, _, _⟩ := fromSamples_root h
   have hside := to_schema_side_of_WF o h0 t (fromSamples_inv ht).wf fields hs
   obtain ⟨root0, hnew⟩ := newRoot_traced o h0 t (fromSamples_inv ht) fields hs
-  obtain ⟨root, hrun⟩ := Props.C01.runRows_complete ext fields xs root0 hside.2 hnew (hsafe root0 hnew) htot
+  obtain ⟨htyped, htot, _⟩ := to_schema_typed o h0 h
+  exact Props.C01.toMarrow_complete ext fields xs root0 hside.2 hnew ((fromSamples_safe_iff o h0 h hnew).mpr hsafe)
+    htot htyped
     (fun r hr => ⟨sampleOK_noRaw _ r (hok r hr), fromSamples_interpRow o ext h0 h r hr (hok r hr) (hex r hr)⟩)
-    (hcap root0 hnew)
-  exact ⟨root, hrun, by rw [Props.C03.toMarrow_eq, hrun]; rfl⟩
+    (by rw [fromSamples_room o h0 h hnew]; exact hcap)
 
 /-! ### build ⇒ the arrays mean the samples -/
 
@@ -198,8 +250,9 @@ hypotheses: they are derived for the built arrays (`Props.C03.toMarrow_readAny_p
 chrono parsers return values in range; a theorem for the codec models, `Props.C03.codecExt_ok`) and `hval` (`SValOK`: f32 /
 f64 / integer calls carry values of their width; implied by `SVal.typed`).
 PARTIAL — what remains: `hphys`, the size precondition `Read.physical` (the value count of a dictionary column fits `i64`):
-not derived when strings are dictionary encoded (`string_dictionary_encoding`, `enums_without_data_as_strings`); see
-`C06_closure_readback` for the other options and `Props.C03.wf_not_physical` for why `Spec.WF` alone cannot give it. -/
+not derived HERE (this theorem has no size hypothesis on the samples, and `Spec.WF` alone cannot give it:
+`Props.C03.wf_not_physical`).  It is derived by `C06_closure_physical` when the samples are not excluded and sum to less than
+`2^31 - 1` — see `C06_closure_dict` — and for options without dictionary encoding (`C06_closure_readback`). -/
 theorem C06_closure_readback_partial (o : Options) (ext : Ext) (h0 : o.overwrites = []) (xs : List SVal)
     (fields : List Field) (arrs : List Arr) (h : fromSamples .fixed o xs = .ok fields)
     (hok : ∀ x ∈ xs, SampleOK o x)
@@ -221,18 +274,17 @@ theorem C06_closure_readback_partial (o : Options) (ext : Ext) (h0 : o.overwrite
     (fun x hx => sampleOK_noRaw _ x (hok x hx)) hext hval (fun f hf => Lemmas.C03.readableDT_of_F (hread f hf)) hphys hm
   exact ⟨cols, hcl, hc4, hrd⟩
 
-/-- **`C06_closure_readback`**: the same with NO reader-side hypothesis, for tracing options that never dictionary-encode
-strings (`string_dictionary_encoding = false`, `enums_without_data_as_strings = false`): the traced schema then has no
-Dictionary (and never a FixedSizeList) column — `Lemmas.C06.to_schema_physFree` — and `Read.physical` follows from
-`Spec.WF` (`Props.C03.wf_physical_partial`).  Trace ⇒ build ⇒ read back: whenever `to_marrow` with the traced schema returns
-arrays for the collection, `deserialize_any` on slot `i` of column `j` returns the documented value of field `j` of sample
-`i`.  Remaining hypotheses are all on the input side: `hok` (samples are serde values), `hsafe` (C01's `Safe`), `hext`,
-`hval` (C03's `ExtOK`, `SValOK`). -/
+/-- **`C06_closure_readback`**: the same with NO reader-side hypothesis and NO `Safe` hypothesis, for tracing options that
+never dictionary-encode strings (`string_dictionary_encoding = false`, `enums_without_data_as_strings = false`): the
+traced schema then has no Dictionary (and never a FixedSizeList) column — `Lemmas.C06.to_schema_physFree` —, `Read.physical`
+follows from `Spec.WF` (`Props.C03.wf_physical_partial`) and C01's `Safe` holds (`fromSamples_safeSchema`).  Trace ⇒ build ⇒
+read back: whenever `to_marrow` with the traced schema returns arrays for the collection, `deserialize_any` on slot `i` of
+column `j` returns the documented value of field `j` of sample `i`.  Remaining hypotheses are all on the input side: `hok`
+(samples are serde values), `hext`, `hval` (C03's `ExtOK`, `SValOK`). -/
 theorem C06_closure_readback (o : Options) (ext : Ext) (h0 : o.overwrites = []) (xs : List SVal)
     (fields : List Field) (arrs : List Arr) (h : fromSamples .fixed o xs = .ok fields)
     (hd : o.string_dictionary_encoding = false) (he : o.enums_without_data_as_strings = false)
     (hok : ∀ x ∈ xs, SampleOK o x)
-    (hsafe : ∀ root0, newRoot fields = .ok root0 → Safe root0)
     (hext : Lemmas.C03.ExtOK ext)
     (hval : ∀ x ∈ xs, Lemmas.C03.SValOK x)
     (hm : toMarrow ext fields xs = .ok arrs) :
@@ -245,19 +297,122 @@ theorem C06_closure_readback (o : Options) (ext : Ext) (h0 : o.overwrites = []) 
   obtain ⟨t, n, children, md, ht, hs, _, _⟩ := fromSamples_root h
   have hside := to_schema_side_of_WF o h0 t (fromSamples_inv ht).wf fields hs
   have hfree := to_schema_physFree o h0 hd he t (fromSamples_inv ht).wf fields hs
+  have hsafe : ∀ root0, newRoot fields = .ok root0 → Safe root0 :=
+    fun root0 hnew => (fromSamples_safe_iff o h0 h hnew).mpr (fromSamples_safeSchema o h0 hd he h)
   exact C06_closure_readback_partial o ext h0 xs fields arrs h hok hsafe hext hval hm
     (Props.C03.toMarrow_physical_partial ext fields xs arrs hside.1 hsafe hext hval hfree hm)
 
+/-! ### the closure, composed -/
+
+/-- **`C06_closure`** — a schema traced from samples accepts those same samples, end to end, for tracing options that never
+dictionary-encode strings.  Whenever `from_samples` succeeds on the collection `xs`, then
+  1. `to_marrow` with the traced schema ACCEPTS the collection: it returns arrays, one per traced field;
+  2. the documented mapping of sample `i` under the traced schema is the struct of the `i`-th column entries (`cols`);
+  3. `deserialize_any` on slot `i` of array `j` reproduces that entry (`toD`).
+Hypotheses — ALL on the input, all decidable: the samples are serde values a Rust program can produce (`hok`, `hval`), none of
+the three documented exclusions / the known finding `dataLessNewtype` applies (`hex`), the sizes of the samples sum to at most
+`i32::MAX` (`hcap`), the external chrono / float formatters are in range (`hext`; a theorem for the codec models).
+No hypothesis on the schema, the builder or the arrays remains. -/
+theorem C06_closure (o : Options) (ext : Ext) (h0 : o.overwrites = []) (xs : List SVal) (fields : List Field)
+    (h : fromSamples .fixed o xs = .ok fields)
+    (hd : o.string_dictionary_encoding = false) (he : o.enums_without_data_as_strings = false)
+    (hok : ∀ x ∈ xs, SampleOK o x) (hex : ∀ x ∈ xs, excludedRow ext fields x = false)
+    (hcap : (xs.map (vsize ext)).sum ≤ 2147483647)
+    (hext : Lemmas.C03.ExtOK ext)
+    (hval : ∀ x ∈ xs, Lemmas.C03.SValOK x) :
+    ∃ arrs, toMarrow ext fields xs = .ok arrs ∧ arrs.length = fields.length ∧
+      ∃ cols : List (String × List LVal), cols.length = arrs.length ∧
+        (∀ (i : Nat) (hi : i < xs.length),
+          interpRow ext fields xs[i] = .ok (.struct (LFields.ofList (cols.map fun c => (c.1, c.2.getD i .null))))) ∧
+        ∀ (j : Nat) (hj : j < arrs.length) (i : Nat), i < xs.length →
+          ∃ lv, (cols[j]?.map (·.2[i]?)) = some (some lv) ∧
+            Read.readAny Read.Fixes.all arrs[j] i = .ok (Read.toD arrs[j] lv) := by
+  obtain ⟨arrs, hm⟩ := C06_closure_build o ext h0 xs fields h hok hex (fromSamples_safeSchema o h0 hd he h) hcap
+  have hsafe : ∀ root0, newRoot fields = .ok root0 → Safe root0 :=
+    fun root0 hnew => (fromSamples_safe_iff o h0 h hnew).mpr (fromSamples_safeSchema o h0 hd he h)
+  exact ⟨arrs, hm, (C06_closure_decode o ext h0 xs fields arrs h hok hsafe hm).1,
+    C06_closure_readback o ext h0 xs fields arrs h hd he hok hext hval hm⟩
+
+/-- **`C06_closure_physical`**: the size precondition `Read.physical` of the reader (the value count of every Dictionary
+column fits `i64`) holds for the arrays `to_marrow` builds from a traced schema — for EVERY option, dictionary-encoded strings
+included — when the samples sum to LESS than the fresh head room `2^31 - 1`.  No counting of distinct strings: the builders'
+own capacity accounting bounds the value count.  `room` is at most the number of free keys of every dictionary
+(`2^32 - index.length` for the UInt32 keys the tracer emits), completeness of `push` gives `room root0 ≤ room root + Σ vsize`
+(`Props.C01.foldl_push_complete`), `room root0 = 2^31 - 1` (`fromSamples_room`); so `1 ≤ room root`, every dictionary of the
+final state holds fewer than `2^32` values (`Lemmas.C06.physB_of_room`), and `into_array` keeps that
+(`Lemmas.C06.finish_physical`).  (`Props.C03.wf_not_physical`: `Spec.WF` of the arrays alone could not give it.) -/
+theorem C06_closure_physical (o : Options) (ext : Ext) (h0 : o.overwrites = []) (xs : List SVal) (fields : List Field)
+    (arrs : List Arr) (h : fromSamples .fixed o xs = .ok fields)
+    (hok : ∀ x ∈ xs, SampleOK o x) (hex : ∀ x ∈ xs, excludedRow ext fields x = false)
+    (hsafe : safeSchema fields = true)
+    (hcap : (xs.map (vsize ext)).sum < 2147483647)
+    (hm : toMarrow ext fields xs = .ok arrs) : ∀ a ∈ arrs, Read.physical a = true := by
+  obtain ⟨t, n, children, md, ht, hs, _, _⟩ := fromSamples_root h
+  have hside := to_schema_side_of_WF o h0 t (fromSamples_inv ht).wf fields hs
+  obtain ⟨root0, hnew⟩ := newRoot_traced o h0 t (fromSamples_inv ht) fields hs
+  obtain ⟨_, htot, _⟩ := to_schema_typed o h0 h
+  have hsafe0 : Safe root0 := (fromSamples_safe_iff o h0 h hnew).mpr hsafe
+  have hroom0 := fromSamples_room o h0 h hnew
+  obtain ⟨root, hfold, hroom⟩ := Props.C01.foldl_push_complete ext (.struct (Fields.ofList fields)) false [] xs root0
+    (newRoot_fresh hnew).1 hsafe0 (newRoot_shape hside.2 hnew) (by simp [total, htot])
+    (fun r hr => ⟨sampleOK_noRaw _ r (hok r hr), fromSamples_interpRow o ext h0 h r hr (hok r hr) (hex r hr)⟩)
+    (by rw [hroom0]; omega)
+  have hrun : runRows ext fields xs = .ok root := by simp only [runRows, hnew]; exact hfold
+  have hw := (Props.C01.runRows_rows ext fields xs root0 root hnew hsafe0 hrun).1
+  have hb := Lemmas.C03.runRows_builtFor ext fields xs root (Build.push_takeRest ext) hrun
+  have hp := physB_of_room root _ false hb
+    (by simpa [physKeysDT] using to_schema_physKeys o h0 t (fromSamples_inv ht).wf fields hs) (by omega)
+  rw [Props.C03.toMarrow_eq, hrun] at hm
+  simp only [bind, Except.bind] at hm
+  cases hba : buildArrays ext root with
+  | error e => rw [hba] at hm; cases hm
+  | ok pr =>
+    obtain ⟨arrs', rest⟩ := pr
+    rw [hba] at hm
+    simp only [pure, Except.pure, Except.ok.injEq] at hm
+    subst hm
+    exact buildArrays_physical ext root rest arrs' hba hw hp
+
+/-- **`C06_closure_dict`** — the closure for EVERY option, dictionary-encoded strings (`string_dictionary_encoding`,
+`enums_without_data_as_strings`) included: whenever `from_samples` succeeds on the collection, `to_marrow` with the traced
+schema accepts it, the documented mapping of sample `i` is the struct of the `i`-th column entries, and `deserialize_any`
+reproduces every entry.  No hypothesis on the builder or the arrays (`Read.physical` is derived: `C06_closure_physical`).
+Compared with `C06_closure`:
+  `hsafe`  `safeSchema fields` — C01's exclusion, a decidable predicate on the traced schema (exactly `Safe` of the fresh
+           builder, `fromSamples_safe_iff`).  It can fail (`safeSchema_can_fail`: a non-nullable dictionary-encoded string
+           inside an `Option<struct>`).  Those collections are OUTSIDE this theorem although `to_marrow` accepts them: C01's
+           append-only statement R1 is false there builder by builder (`Props.C01.dict_placeholder_unstable`); a limit of the
+           proof, not of the crate;
+  `hcap`   strict: the sizes sum to less than `2^31 - 1`. -/
+theorem C06_closure_dict (o : Options) (ext : Ext) (h0 : o.overwrites = []) (xs : List SVal) (fields : List Field)
+    (h : fromSamples .fixed o xs = .ok fields)
+    (hok : ∀ x ∈ xs, SampleOK o x) (hex : ∀ x ∈ xs, excludedRow ext fields x = false)
+    (hsafe : safeSchema fields = true)
+    (hcap : (xs.map (vsize ext)).sum < 2147483647)
+    (hext : Lemmas.C03.ExtOK ext)
+    (hval : ∀ x ∈ xs, Lemmas.C03.SValOK x) :
+    ∃ arrs, toMarrow ext fields xs = .ok arrs ∧ arrs.length = fields.length ∧
+      ∃ cols : List (String × List LVal), cols.length = arrs.length ∧
+        (∀ (i : Nat) (hi : i < xs.length),
+          interpRow ext fields xs[i] = .ok (.struct (LFields.ofList (cols.map fun c => (c.1, c.2.getD i .null))))) ∧
+        ∀ (j : Nat) (hj : j < arrs.length) (i : Nat), i < xs.length →
+          ∃ lv, (cols[j]?.map (·.2[i]?)) = some (some lv) ∧
+            Read.readAny Read.Fixes.all arrs[j] i = .ok (Read.toD arrs[j] lv) := by
+  obtain ⟨arrs, hm⟩ := C06_closure_build o ext h0 xs fields h hok hex hsafe (by omega)
+  have hsafe' : ∀ root0, newRoot fields = .ok root0 → Safe root0 :=
+    fun root0 hnew => (fromSamples_safe_iff o h0 h hnew).mpr hsafe
+  exact ⟨arrs, hm, (C06_closure_decode o ext h0 xs fields arrs h hok hsafe' hm).1,
+    C06_closure_readback_partial o ext h0 xs fields arrs h hok hsafe' hext hval hm
+      (C06_closure_physical o ext h0 xs fields arrs h hok hex hsafe hcap hm)⟩
+
 /-! ### non-vacuity and necessity of the exclusions (kernel evaluation) -/
 
-/-- the hypotheses of `C06_closure_build_partial` (without `Safe`), decided on a collection; `ext = {}` -/
+/-- the hypotheses of `C06_closure_build`, decided on a collection (`ext = {}`), AND its conclusion, evaluated -/
 def closureHypsB (o : Options) (xs : List SVal) : Bool :=
   match fromSamples .fixed o xs with
   | .ok fields =>
-    xs.all (fun x => sampleOK o.map_as_struct x && !excludedRow {} fields x) && totalFs (Fields.ofList fields) &&
-      (match newRoot fields with
-       | .ok r => decide ((xs.map (vsize {})).sum ≤ room r) && (runRows {} fields xs).isOk
-       | .error _ => false)
+    xs.all (fun x => sampleOK o.map_as_struct x && !excludedRow {} fields x) && safeSchema fields &&
+      decide ((xs.map (vsize {})).sum ≤ 2147483647) && (toMarrow {} fields xs).isOk
   | .error _ => false
 
 /-- a nested collection: fields missing in some samples, a null, an empty and a non-empty list, a tuple, a map, a
@@ -268,10 +423,40 @@ def wClosure : List SVal := [
     ("e", .structVariant "E" 2 "C" (.cons "x" 0 (.str "s") .nil))]]
 
 set_option maxRecDepth 1000000 in
-/-- non-vacuity of `fromSamples_interpRow` / `C06_closure_build_partial`: tracing succeeds, every sample is well formed and
-not excluded, the schema is `total`, the builder can be made, the samples fit — and (the conclusion, evaluated) every
-`push` succeeds -/
+/-- non-vacuity of `fromSamples_interpRow` / `C06_closure_build`: tracing succeeds, every sample is well formed and not
+excluded, the schema is `safeSchema`, the samples fit — and (the conclusion, evaluated) `to_marrow` succeeds -/
 example : closureHypsB { allow_null_fields := true } wClosure = true := by decide +kernel
+
+/-- a collection for the dictionary options: dictionary-encoded strings, a data-less enum traced as strings, and — below a
+struct that is `None` in one sample — a NULLABLE dictionary-encoded string and an enum whose first variant was never seen
+(the shape of the repaired finding `C06-unseen-first-variant-default`) -/
+def wClosureDict : List SVal := [
+  recOf [("s", .str "a"), ("e", .unitVariant "E" 1 "B"),
+    ("o", .some (recOf [("u", .newtypeVariant "U" 1 "V1" (i32 1)), ("d", .some (.str "x"))]))],
+  recOf [("s", .str "b"), ("e", .unitVariant "E" 0 "A"), ("o", .none)]]
+
+set_option maxRecDepth 1000000 in
+/-- non-vacuity of `C06_closure_build` with dictionaries and a union below a nullable struct: all hypotheses hold
+(`safeSchema` included), and `to_marrow` succeeds -/
+example : closureHypsB { string_dictionary_encoding := true, enums_without_data_as_strings := true } wClosureDict = true := by
+  decide +kernel
+
+/-- `[{o: Some({d: "x"})}, {o: None}]`: under `string_dictionary_encoding` the string `d` is traced as a NON-nullable
+`Dictionary(UInt32, LargeUtf8)` inside the nullable struct `o` -/
+def wUnsafe : List SVal := [recOf [("o", .some (recOf [("d", .str "x")]))], recOf [("o", .none)]]
+
+set_option maxRecDepth 1000000 in
+/-- **`safeSchema` can fail for a traced schema** (so it stays a hypothesis with the dictionary options): the tracer gives
+the Dictionary field the nullability of the string position, `build_builder` gives the key builder that nullability, and the
+`None` of the second sample sends `serialize_default` into non-nullable keys — C01's `dict_placeholder_unstable` shape.
+This is a limit of the PROOF (C01's R1 is stated builder by builder), not a defect: every other hypothesis of
+`C06_closure_build` holds and `to_marrow` accepts the collection (evaluated). -/
+theorem safeSchema_can_fail :
+    (match fromSamples .fixed { string_dictionary_encoding := true } wUnsafe with
+     | .ok fields =>
+       !safeSchema fields && wUnsafe.all (fun x => sampleOK true x && !excludedRow {} fields x) &&
+         (toMarrow {} fields wUnsafe).isOk
+     | .error _ => false) = true := by decide +kernel
 
 /-- the exclusion `p` is NEEDED: the collection traces, its samples are well-formed serde values, the traced schema does
 not map sample `i` (`interpRow` fails), and `p` holds at some position of that sample -/
@@ -343,27 +528,58 @@ theorem wRead_trace : fromSamples .fixed {} wRead = .ok wReadFields := by decide
 set_option maxRecDepth 1000000 in
 theorem wRead_build : (toMarrow {} wReadFields wRead).isOk = true := by decide +kernel
 
-/-- non-vacuity of `C06_closure_readback`: a collection with a null, a two-byte UTF-8 string and an empty string; tracing
-succeeds (`wRead_trace`), `to_marrow` accepts it (`wRead_build`), every hypothesis is discharged — reading the built arrays
-back returns the documented values of the samples, unconditionally -/
-example : ∀ arrs, toMarrow {} wReadFields wRead = .ok arrs →
+/-- non-vacuity of `to_schema_typed` / `fromSamples_room` / `fromSamples_safe_iff` / `fromSamples_safeSchema`: their only
+hypothesis is that tracing succeeded (`wRead_trace`; with a union and dictionaries: the `closureHypsB` examples above) -/
+example : Lemmas.C03.typedFs (Fields.ofList wReadFields) = true ∧ totalFs (Fields.ofList wReadFields) = true ∧
+    wideFs (Fields.ofList wReadFields) = true := to_schema_typed {} rfl wRead_trace
+
+example : safeSchema wReadFields = true ∧ ∀ root0, newRoot wReadFields = .ok root0 → room root0 = 2147483647 ∧ Safe root0 :=
+  ⟨fromSamples_safeSchema {} rfl rfl rfl wRead_trace, fun _ hnew => ⟨fromSamples_room {} rfl wRead_trace hnew,
+    (fromSamples_safe_iff {} rfl wRead_trace hnew).mpr (fromSamples_safeSchema {} rfl rfl rfl wRead_trace)⟩⟩
+
+/-- non-vacuity of `C06_closure` (and of `C06_closure_readback` inside it): a collection with a null, a two-byte UTF-8
+string and an empty string; tracing succeeds (`wRead_trace`) and EVERY hypothesis is discharged — `to_marrow` accepts the
+collection and reading the built arrays back returns the documented values of the samples, unconditionally -/
+example : ∃ arrs, toMarrow {} wReadFields wRead = .ok arrs ∧ arrs.length = wReadFields.length ∧
     ∃ cols : List (String × List LVal), cols.length = arrs.length ∧
       (∀ (i : Nat) (hi : i < wRead.length),
         interpRow {} wReadFields wRead[i] = .ok (.struct (LFields.ofList (cols.map fun c => (c.1, c.2.getD i .null))))) ∧
       ∀ (j : Nat) (hj : j < arrs.length) (i : Nat), i < wRead.length →
         ∃ lv, (cols[j]?.map (·.2[i]?)) = some (some lv) ∧
           Read.readAny Read.Fixes.all arrs[j] i = .ok (Read.toD arrs[j] lv) := by
-  intro arrs hm
-  refine C06_closure_readback {} {} rfl wRead wReadFields arrs wRead_trace rfl rfl ?_ ?_ ?_ ?_ hm
+  refine C06_closure {} {} rfl wRead wReadFields wRead_trace rfl rfl ?_ ?_ ?_ ?_ ?_
   · decide
-  · intro root0 h0
-    rw [show newRoot wReadFields = .ok (.struct "$" 0 none
-      (.cons (.leaf "$.a" (.int .i32) (some []) []) ⟨"a", true, []⟩
-        (.cons (.bytes "$.s" .largeUtf8 none [0] []) ⟨"s", false, []⟩ .nil)) [none, none] 0 [false, false]) from by decide] at h0
-    cases h0
-    simp [Safe, SafeL]
+  · decide +kernel
+  · decide +kernel
   · constructor <;> (intros; rename_i h; cases h)
   · simp [wRead, recOf, i32, SFields.ofList, Lemmas.C03.SValOK, Lemmas.C03.SFieldsOK, Lemmas.C03.ScalarOK,
+      IntTy.inRange, IntTy.min, IntTy.max]
+
+/-! ### non-vacuity of the closure with dictionary-encoded strings -/
+
+def wDict : List SVal := [recOf [("s", .str "a"), ("n", i32 1)], recOf [("s", .str "é"), ("n", .none)], recOf [("s", .str "a"), ("n", i32 3)]]
+def wDictFields : List Field := [.mk "s" (.dictionary .uint32 .largeUtf8) false [], .mk "n" .int32 true []]
+
+set_option maxRecDepth 1000000 in
+theorem wDict_trace : fromSamples .fixed { string_dictionary_encoding := true } wDict = .ok wDictFields := by decide +kernel
+
+/-- non-vacuity of `C06_closure_dict` (and of `C06_closure_physical` inside it): a repeated and a two-byte string, dictionary
+encoded; every hypothesis is discharged — `to_marrow` accepts the collection and `deserialize_any` on the Dictionary column
+returns the strings of the samples -/
+example : ∃ arrs, toMarrow {} wDictFields wDict = .ok arrs ∧ arrs.length = wDictFields.length ∧
+    ∃ cols : List (String × List LVal), cols.length = arrs.length ∧
+      (∀ (i : Nat) (hi : i < wDict.length),
+        interpRow {} wDictFields wDict[i] = .ok (.struct (LFields.ofList (cols.map fun c => (c.1, c.2.getD i .null))))) ∧
+      ∀ (j : Nat) (hj : j < arrs.length) (i : Nat), i < wDict.length →
+        ∃ lv, (cols[j]?.map (·.2[i]?)) = some (some lv) ∧
+          Read.readAny Read.Fixes.all arrs[j] i = .ok (Read.toD arrs[j] lv) := by
+  refine C06_closure_dict { string_dictionary_encoding := true } {} rfl wDict wDictFields wDict_trace ?_ ?_ ?_ ?_ ?_ ?_
+  · decide
+  · decide +kernel
+  · decide
+  · decide +kernel
+  · constructor <;> (intros; rename_i h; cases h)
+  · simp [wDict, recOf, i32, SFields.ofList, Lemmas.C03.SValOK, Lemmas.C03.SFieldsOK, Lemmas.C03.ScalarOK,
       IntTy.inRange, IntTy.min, IntTy.max]
 
 end SaModel.Props.C06
